@@ -246,7 +246,7 @@ def run_stream_session(pstr, flags, chans, enable, nframes, chunk=0, dev="ref"):
             tries += 1
             st = comm.stream_data()
             if st is not None:
-                frames.append((st.flags, [(x.chan, int(x.dtype), x.vdim, x.mlen, repr(x.data), repr(x.meta)) for x in st.samples]))
+                frames.append((st.flags, [(x.chan, sg.kind_code(x.dtype), x.vdim, x.mlen, repr(x.data), repr(x.meta)) for x in st.samples]))
         a2 = comm.stream_stop()
         comm.disconnect()
         return {"description": desc, "acks": (repr(a1), repr(a2)), "stream": frames, "dev_en": dev.en,
@@ -852,12 +852,11 @@ class C20(Prop):
             out = Recorder(cls).handle(d)
             i = rc.find(d)
             exp = fc.accepts(rc, d[i:]) if i >= 0 else None
-            if exp is None:
-                want = "ignored"
-            else:
-                fid, p = exp
-                want = f"fired {CB_OF[fid][0]} {hexs(p)}" if fid in CB_OF and CB_OF[fid][1](len(p)) else "raised assert"
-            if out != want:
+            # what the property demands and nothing more (a payload of the wrong size for its request kind may fire the
+            # callback, raise, or be ignored: props/C02.py dispatcher_verdict)
+            from props.C02 import dispatcher_verdict
+            want = dispatcher_verdict(exp, out)
+            if want is not None:
                 return {"key": "dispatch-custom-codec",
                         "what": "with ParseRecv(cb, frame=<custom codec>) recv_handle reacts to a write against that codec's "
                                 "acceptance predicate (start byte, known id, hdr+foot <= declared length <= len, footer over "
